@@ -133,6 +133,9 @@ Proof.
   - apply andb_prop in Hp. destruct Hp as [Hp _]. apply andb_prop in Hp. destruct Hp as [_ Hp].
     destruct (IHs1 Hp) as (t & r & E & St).
     destruct (wrap_cases lvl_atom (lvl s1) (raw s1)) as [W|W]; rewrite W; [rewrite E|]; cbn; eauto.
+  - repeat (apply andb_prop in Hp; destruct Hp as [Hp ?]).
+    match goal with X : printable s = true |- _ => destruct (IHs X) as (t & r & E & St) end.
+    destruct (wrap_cases lvl_atom (lvl s) (raw s)) as [W|W]; rewrite W; [rewrite E|]; cbn; eauto.
   - destruct u; cbn; eauto.
   - apply andb_prop in Hp. destruct Hp as [Hp _]. apply andb_prop in Hp. destruct Hp as [_ Hp].
     destruct (IHs1 Hp) as (t & r & E & St).
@@ -162,6 +165,7 @@ Proof.
   - rewrite Hn; reflexivity.
   - rewrite Hn; reflexivity.
   - destruct (is_chain s1); [rewrite Hn|]; reflexivity.
+  - destruct (is_chain s); [rewrite Hn|]; reflexivity.
   - rewrite (closer_refused _ _ Hc). cbn [andb].
     destruct ((lvl s <? lvl_un u) || starts_unary (raw s)); auto.
   - rewrite (closer_refused _ _ Hc). cbn [andb]. destruct (lvl s2 <? rp o); auto.
@@ -189,6 +193,7 @@ Proof.
   - rewrite Hn; reflexivity.
   - rewrite Hn; reflexivity.
   - destruct (is_chain a1); [rewrite Hn|]; reflexivity.
+  - destruct (is_chain a); [rewrite Hn|]; reflexivity.
   - rewrite (refused_mono _ _ _ Hr (Fu u Hlv)). cbn [andb].
     destruct ((lvl a <? lvl_un u) || starts_unary (raw a)) eqn:E; [reflexivity|].
     apply orb_false_elim in E. destruct E as [E _]. apply Nat.ltb_ge in E. apply IHa. lia.
@@ -321,6 +326,9 @@ Proof.
   - destruct (is_chain s1); [lia|].
     rewrite app_length. pose proof (wrap_len lvl_atom (lvl s1) (raw s1)).
     destruct (lvl s1 <? lvl_atom); cbn [List.length app]; rewrite ?app_length; cbn; lia.
+  - destruct (is_chain s); [lia|].
+    rewrite app_length. pose proof (wrap_len lvl_atom (lvl s) (raw s)).
+    destruct (lvl s <? lvl_atom); cbn [List.length app]; rewrite ?app_length; cbn; lia.
   - rewrite app_length. pose proof (wrap_len (lp o) (lvl s1) (raw s1)).
     destruct (lvl s1 <? lp o); cbn [List.length]; lia.
   - rewrite app_length. pose proof (wrap_len (lp OIn) (lvl s1) (raw s1)).
@@ -895,6 +903,69 @@ Proof.
     hdis; reflexivity.
 Qed.
 
+Definition slice_toks (a b c : option sx) : list token :=
+  match a with Some x => raw x | None => [] end ++ [TColon] ++
+  match b with Some x => raw x | None => [] end ++
+  match c with Some x => TColon :: raw x | None => [] end ++ [TRBracket].
+Lemma raw_slice : forall e a b c opt,
+  raw (SSlice e a b c opt) =
+  wrap lvl_atom (lvl e) (raw e) ++ [if opt then TQLBracket else TLBracket] ++ slice_toks a b c.
+Proof. reflexivity. Qed.
+Lemma starter_not_rbracket : forall t r, starter t = true -> hd_is (t :: r) TRBracket = false.
+Proof. destruct t; cbn; intros; try reflexivity; discriminate. Qed.
+
+Lemma hd_raw_colon : forall x r, printable x = true -> hd_is (raw x ++ r) TColon = false.
+Proof. intros x r H. destruct (raw_hd x H) as (t & l & E & St). rewrite E. cbn [app]. apply starter_not_colon; exact St. Qed.
+Lemma hd_raw_rbracket : forall x r, printable x = true -> hd_is (raw x ++ r) TRBracket = false.
+Proof. intros x r H. destruct (raw_hd x H) as (t & l & E & St). rewrite E. cbn [app]. apply starter_not_rbracket; exact St. Qed.
+
+Definition sgood (d : nat) (c : nat * nat) (o : option sx) : Prop :=
+  match o with
+  | Some x => TBp x /\ printable x = true /\ need x <= d /\ S (fst c) + needb x <= maxb
+  | None => True
+  end.
+
+Lemma sgood_parse : forall d c x r, sgood d c (Some x) -> closerL r = true ->
+  PA d (S (fst c), snd c) 0 (raw x ++ r) = Some (desugar x, r).
+Proof.
+  intros d c x r (TB & Hp & Hn & Hb) Hc.
+  apply (TB d (S (fst c), snd c) 0 0 r); auto using wf_thr0, closerL_refusedL, closerL_followL; try lia; try (unfold fits; cbn [fst]; lia).
+Qed.
+
+Lemma subscript_slice_ok : forall d c e' a b cc (opt : bool) ts,
+  sgood d c a -> sgood d c b -> sgood d c cc -> S (fst c) <= maxb ->
+  parse_subscript maxb (PA d) c e' ((if opt then TQLBracket else TLBracket) :: slice_toks a b cc ++ ts)
+  = Some (ESlice e' (option_map desugar a) (option_map desugar b) (option_map desugar cc) opt, ts).
+Proof.
+  intros d c e' a b cc opt ts Ga Gb Gc Hb.
+  unfold parse_subscript, slice_toks.
+  assert (Hm : maxb <? S (fst c) = false) by (apply Nat.ltb_ge; lia).
+  assert (Pa : match a with Some x => printable x = true | None => True end) by (destruct a; [apply Ga|exact I]).
+  assert (Pb : match b with Some x => printable x = true | None => True end) by (destruct b; [apply Gb|exact I]).
+  assert (Pc : match cc with Some x => printable x = true | None => True end) by (destruct cc; [apply Gc|exact I]).
+  destruct opt; hdis; rewrite Hm; unfold sub_opt;
+  destruct a as [xa|]; destruct b as [xb|]; destruct cc as [xc|];
+  cbn [app option_map]; rewrite <- ?app_assoc; cbn [app];
+  repeat first
+    [ rewrite hd_raw_colon by assumption
+    | rewrite hd_raw_rbracket by assumption
+    | rewrite (sgood_parse d c xa) by (auto; reflexivity)
+    | rewrite (sgood_parse d c xb) by (auto; reflexivity)
+    | rewrite (sgood_parse d c xc) by (auto; reflexivity)
+    | rewrite <- app_assoc
+    | progress cbn [app]
+    | progress hdis ];
+  reflexivity.
+Qed.
+
+Lemma sgood_intro : forall d c o,
+  (forall x, o = Some x -> TBp x) ->
+  match o with Some x => printable x | None => true end = true ->
+  match o with Some x => need x | None => 0 end <= d ->
+  S (fst c) + match o with Some x => needb x | None => 0 end <= maxb ->
+  sgood d c o.
+Proof. intros d c [x|] HT Hp Hn Hb; cbn; auto. Qed.
+
 Lemma chain_loop_S : forall P k c e t ts1,
   chain_loop maxb P (S k) c e (t :: ts1) =
       if tis t TDot || tis t TQDot then
@@ -930,11 +1001,12 @@ Fixpoint citems (s : sx) : list token :=
   match s with
   | SAttr e a opt => citems e ++ [if opt then TQDot else TDot; TIdent a]
   | SItem e i opt => citems e ++ [if opt then TQLBracket else TLBracket] ++ raw i ++ [TRBracket]
+  | SSlice e a b c opt => citems e ++ [if opt then TQLBracket else TLBracket] ++ slice_toks a b c
   | _ => []
   end.
 Fixpoint clen (s : sx) : nat :=
   match s with
-  | SAttr e _ _ | SItem e _ _ => S (clen e)
+  | SAttr e _ _ | SItem e _ _ | SSlice e _ _ _ _ => S (clen e)
   | _ => 0
   end.
 
@@ -949,6 +1021,9 @@ Proof.
   - apply andb_prop in Hp. destruct Hp as [Hp _]. apply andb_prop in Hp. destruct Hp as [_ Hp].
     cbn [raw chead citems]. unfold wrap. rewrite (chain_lvl _ Hc). rewrite Nat.ltb_irrefl.
     rewrite IHs1 by assumption. reflexivity.
+  - repeat (apply andb_prop in Hp; destruct Hp as [Hp ?]).
+    rewrite raw_slice. cbn [chead citems]. unfold wrap. rewrite (chain_lvl _ Hc). rewrite Nat.ltb_irrefl.
+    rewrite IHs by assumption. reflexivity.
 Qed.
 
 Lemma chain_plain : forall s, is_chain s = true -> printable s = true -> plain (chead s) = true.
@@ -956,12 +1031,14 @@ Proof.
   induction s; cbn [is_chain printable chead]; intros Hc Hp; try discriminate; auto.
   - apply andb_prop in Hp. destruct Hp as [_ Hp]. auto.
   - apply andb_prop in Hp. destruct Hp as [Hp _]. apply andb_prop in Hp. destruct Hp as [_ Hp]. auto.
+  - repeat (apply andb_prop in Hp; destruct Hp as [Hp ?]). auto.
 Qed.
 
 Lemma clen_le : forall s, clen s <= List.length (citems s).
 Proof.
   induction s; cbn [clen citems]; try lia.
   - rewrite app_length. cbn. lia.
+  - rewrite !app_length. cbn. lia.
   - rewrite !app_length. cbn. lia.
 Qed.
 
@@ -1007,6 +1084,27 @@ Proof.
       rewrite (subscript_item_ok d c (desugar s1) s2 true ts); auto; try lia.
     + rewrite (chain_loop_S (PA d) k c (desugar s1) TLBracket (raw s2 ++ TRBracket :: ts)). hdis.
       rewrite (subscript_item_ok d c (desugar s1) s2 false ts); auto; try lia.
+  - (* SSlice *)
+    assert (CL : CLp s).
+    { apply IHs; auto. intros x Hx. apply HTB. cbn [size]. lia. }
+    intros d cc k R ts Hp Hn Hf HL.
+    cbn [printable] in Hp. repeat (apply andb_prop in Hp; destruct Hp as [Hp ?]).
+    cbn [need] in Hn. unfold fits in *. cbn [needb] in Hf.
+    unfold needw in Hn. rewrite (chain_lvl _ Hc), Nat.ltb_irrefl in Hn.
+    assert (Ga : sgood d cc a).
+    { apply sgood_intro; auto; try lia. intros x E. subst. apply HTB. cbn [size]. lia. }
+    assert (Gb : sgood d cc b).
+    { apply sgood_intro; auto; try lia. intros x E. subst. apply HTB. cbn [size]. lia. }
+    assert (Gc : sgood d cc c).
+    { apply sgood_intro; auto; try lia. intros x E. subst. apply HTB. cbn [size]. lia. }
+    cbn [clen citems chead desugar] in *. rewrite <- !app_assoc. cbn [app].
+    replace (k + S (clen s)) with (S k + clen s) by lia.
+    apply CL; auto; try lia; try (unfold fits; lia).
+    destruct opt.
+    + rewrite (chain_loop_S (PA d) k cc (desugar s) TQLBracket (slice_toks a b c ++ ts)). hdis.
+      rewrite (subscript_slice_ok d cc (desugar s) a b c true ts); auto; try lia.
+    + rewrite (chain_loop_S (PA d) k cc (desugar s) TLBracket (slice_toks a b c ++ ts)). hdis.
+      rewrite (subscript_slice_ok d cc (desugar s) a b c false ts); auto; try lia.
 Qed.
 
 Lemma citems_hd : forall s, is_chain s = true ->
@@ -1017,13 +1115,15 @@ Proof.
     destruct opt; eauto.
   - right. destruct (IHs1 Hc) as [E|(t & l & E & Ht)]; rewrite E; cbn [app]; eauto.
     destruct opt; eauto.
+  - right. destruct (IHs Hc) as [E|(t & l & E & Ht)]; rewrite E; cbn [app]; eauto.
+    destruct opt; eauto.
 Qed.
 
 Lemma ml_chain : forall s, is_chain s = true -> CLp s -> MLp s.
 Proof.
   intros s Hc CL d c min p k R ts Hthr Hp Hpr Hn Hf Hfo HL.
   assert (Hsp : spine s = 0).
-  { destruct s; cbn [is_chain spine] in *; try discriminate; try reflexivity. rewrite Hc. reflexivity. }
+  { destruct s; cbn [is_chain spine] in *; try discriminate; try reflexivity; rewrite Hc; reflexivity. }
   rewrite Hsp, Nat.add_0_r.
   rewrite (raw_chain s Hc Hpr). cbn [app]. unfold body_k, Pratt.prefix.
   pose proof (chain_plain s Hc Hpr) as Hpl. unfold plain in Hpl.
@@ -1032,6 +1132,7 @@ Proof.
     destruct s; cbn [is_chain follow] in *; try discriminate.
     - destruct (chain_tok t); cbn in *; congruence.
     - destruct (chain_tok t); cbn in *; congruence.
+    - rewrite Hc in Hfo. destruct (chain_tok t); cbn in *; congruence.
     - rewrite Hc in Hfo. destruct (chain_tok t); cbn in *; congruence. }
   assert (Hpi : parse_ident maxb (PA d) c (chead s) (citems s ++ ts) = Some (desugar s, ts)).
   { unfold parse_ident.
@@ -1058,6 +1159,7 @@ Proof.
   all: try (destruct u; discriminate); try (destruct o; discriminate).
   - apply andb_prop in Hp. destruct Hp as [Hp _]. congruence.
   - rewrite Hc. reflexivity.
+  - rewrite Hc. reflexivity.
 Qed.
 
 Lemma ml_item : forall e i opt, is_chain e = false -> MLp e -> TBp e -> TBp i -> MLp (SItem e i opt).
@@ -1076,6 +1178,28 @@ Proof.
   - intros E. cbn [followL]. apply follow_atom_bracket; auto.
   - rewrite loop_S. change (classify TLBracket) with LSub. cbv iota.
     rewrite (subscript_item_ok d c (desugar e) i false ts); auto; try lia.
+Qed.
+
+Lemma ml_slice : forall e a b cc opt, is_chain e = false -> MLp e -> TBp e ->
+  (forall x, a = Some x -> TBp x) -> (forall x, b = Some x -> TBp x) -> (forall x, cc = Some x -> TBp x) ->
+  MLp (SSlice e a b cc opt).
+Proof.
+  intros e a b cc opt Hc MLe TBe Ta Tb Tc d c min p k R ts Hthr Hp Hpr Hn Hf Hfo HL.
+  cbn [printable] in Hpr. repeat (apply andb_prop in Hpr; destruct Hpr as [Hpr ?]).
+  destruct opt; [rewrite Hc in Hpr; discriminate|].
+  cbn [need] in Hn. unfold fits in *. cbn [needb] in Hf.
+  rewrite raw_slice. cbn [spine desugar] in *. rewrite Hc.
+  rewrite <- !app_assoc. cbn [app].
+  replace (k + S (if lvl e <? lvl_atom then 0 else spine e)) with (S k + (if lvl e <? lvl_atom then 0 else spine e)) by lia.
+  assert (Ga : sgood d c a) by (apply sgood_intro; auto; lia).
+  assert (Gb : sgood d c b) by (apply sgood_intro; auto; lia).
+  assert (Gc : sgood d c cc) by (apply sgood_intro; auto; lia).
+  eapply (left_op e lvl_atom MLe TBe); eauto.
+  - lia.
+  - unfold fits. lia.
+  - intros E. cbn [followL]. apply follow_atom_bracket; auto.
+  - rewrite loop_S. change (classify TLBracket) with LSub. cbv iota.
+    rewrite (subscript_slice_ok d c (desugar e) a b cc false ts); auto; try lia.
 Qed.
 
 (* ------------------------------------------------------------------ assembling: induction on size *)
@@ -1102,7 +1226,10 @@ Proof.
   - destruct (is_chain s1) eqn:Hc.
     + apply ml_chain; [exact Hc|]. apply cl_all; [exact Hc|exact TBlt].
     + apply ml_item; auto; try (apply IH; lia); apply TB; lia.
-  - intros d0 cc min p k0 R ts0 _ _ Hpr. discriminate.
+  - destruct (is_chain s) eqn:Hc.
+    + apply ml_chain; [exact Hc|]. apply cl_all; [exact Hc|exact TBlt].
+    + apply ml_slice; auto; try (apply IH; lia); try (apply TB; lia);
+        intros x E; subst; apply TB; cbn [size] in Hs; lia.
   - apply ml_un. apply TB. lia.
   - apply ml_bin; try (apply IH; lia); apply TB; lia.
   - apply ml_notin; try (apply IH; lia); apply TB; lia.
@@ -1223,6 +1350,13 @@ Proof.
     + apply andb_prop in Hp. destruct Hp as [_ Hp]. rewrite IH; auto. lia.
     + apply andb_prop in Hp. destruct Hp as [Hp Hpi]. apply andb_prop in Hp. destruct Hp as [_ Hp].
       rewrite !IH; auto; lia.
+    + repeat (apply andb_prop in Hp; destruct Hp as [Hp ?]).
+      assert (Ho : forall o : option expr,
+                (match o with Some x => esize x | None => 0 end) <= n ->
+                match option_map embed o with Some x => printable x | None => true end = true ->
+                option_map desugar (option_map embed o) = o).
+      { intros [x|] Hsz Hpo; cbn in *; [rewrite IH; auto|reflexivity]. }
+      rewrite IH; auto; try lia. rewrite !Ho; auto; lia.
     + rewrite IH; auto. lia.
     + apply andb_prop in Hp. destruct Hp as [Hp Hpb]. apply andb_prop in Hp. destruct Hp as [_ Hp].
       rewrite !IH; auto; lia.
